@@ -103,10 +103,14 @@ func (e *Engine) sendReady(st *State, obj int, self int) bool {
 func (e *Engine) reschedule(st *State, why string) {
 	var cands []int
 	for i, th := range st.Threads {
-		if e.runnable(st, th) {
+		if e.runnable(st, th) && !(st.YieldFrom > 0 && i == st.YieldFrom && len(st.Threads) > 1) {
 			cands = append(cands, i)
 		}
 	}
+	if len(cands) == 0 && st.YieldFrom > 0 {
+		cands = append(cands, st.YieldFrom)
+	}
+	st.YieldFrom = 0
 	if len(cands) == 0 {
 		// nothing can run: either quiescent (main waiting in Quiesce) or deadlock
 		main := st.Threads[0]
